@@ -380,9 +380,8 @@ theorem drainA_wantlist (g : GS) (ha : AInv g) :
   rw [step_drainA_a g.s ha.srv]
   simp only [drainedA]
   split
-  · show (Client.sendingChanged _ _ _).wantlist = _
-    unfold Client.sendingChanged
-    split <;> exact d1
+  · show (Client.sendingChanged _ _ _ _).wantlist = _
+    rw [(ClientSending.sendingChanged_fields _ _ _ _).2.1]; exact d1
   · exact d1
 
 theorem xinv_drainA (g : GS) (ha : AInv g) (hx : XInv g) (ha' : AInv (gnext g .drainA)) :
